@@ -1299,7 +1299,7 @@ def catalogue():
         lambda cs: {"np": cs.choice("np", [100, 1, 7]),
                     "mx": cs.choice("mx", [-1, 3])})
     add("grid.accumulate(field)", [FD, ("f", "field", None)],
-        lambda a, o: hgrid.accumulate(a.fd, a.f, nprint=50))
+        lambda a, o: hgrid.accumulate(a.fd, a.f, nprint=50), weight=6)
     add("grid.slope", [FD, ("f", "field", None)],
         lambda a, o: hgrid.slope(a.fd, a.f, nprint=o["np"]),
         lambda cs: {"np": cs.choice("np", [100, 3])})
